@@ -1349,13 +1349,19 @@ func appCacheDriver(a *Args) {
 	}
 	defer e.stop()
 	users := map[string]string{"u1": "cache-u1@example.com", "u2": "cache-u2@example.com"}
+	// a backend shared with everybody and a private one of user u1 for the same paths: u1 is routed to its own
+	// backend, u2 to the shared one (both served by the same agent identity)
 	bk := appBackend{ID: "cache-1", EndUser: "allUsers", BackendUser: "agent-c@example.com", Prefixes: []string{"/"}, live: true}
-	if st := e.addBackend(bk); st != 200 {
-		res.Bad("add backend: %d", st)
-		return
+	bkPriv := appBackend{ID: "cache-u1", EndUser: users["u1"], BackendUser: "agent-c@example.com", Prefixes: []string{"/"}, live: true}
+	for _, b := range []appBackend{bk, bkPriv} {
+		if st := e.addBackend(b); st != 200 {
+			res.Bad("add backend: %d", st)
+			return
+		}
 	}
 	for si, seq := range cases.Sequences {
 		e.setLastSeen(bk.ID, time.Now())
+		e.setLastSeen(bkPriv.ID, time.Now())
 		url := fmt.Sprintf("/cache/doc-%d?v=%d", si, si%3)
 		var shape []string
 		for _, op := range seq {
@@ -1366,6 +1372,13 @@ func appCacheDriver(a *Args) {
 		bodies := map[int][]byte{}
 		for k, op := range seq {
 			own := si*10 + k + 1
+			if op.M == "QUIET" {
+				// the agents of both backends have not polled for six minutes
+				e.setLastSeen(bk.ID, time.Now().Add(-6*time.Minute))
+				e.setLastSeen(bkPriv.ID, time.Now().Add(-6*time.Minute))
+				hx.Emit("CacheQuiet")
+				continue
+			}
 			bodies[own] = []byte(fmt.Sprintf("answer-%d-to-%s", own, op.M))
 			var reqBody []byte
 			if op.M == "POST" {
@@ -1379,7 +1392,12 @@ func appCacheDriver(a *Args) {
 				rid, ch = e.clientRequest(users[op.U], op.M, url, reqBody, 10*time.Second)
 			}
 			// the harness is the agent: a request that is stored is answered with this exchange's own body
-			reached := e.storedUnder(rid, 250*time.Millisecond) != ""
+			storedAt := e.storedUnder(rid, 250*time.Millisecond)
+			reached := storedAt != ""
+			wantAt := map[string]string{"u1": bkPriv.ID, "u2": bk.ID}[op.U]
+			if reached && storedAt != wantAt {
+				res.Note("sequence %s: the request of %s was stored under %s (expected %s)", sig, op.U, storedAt, wantAt)
+			}
 			if reached {
 				cc := ""
 				if op.CC {
@@ -1391,7 +1409,7 @@ func appCacheDriver(a *Args) {
 					cc += fmt.Sprintf("Content-Range: bytes %d-%d/100\r\n", k, k+len(bodies[own])-1)
 				}
 				raw := fmt.Sprintf("HTTP/1.1 %s\r\nContent-Length: %d\r\nX-Own: %d\r\n%s\r\n%s", statusLine, len(bodies[own]), own, cc, bodies[own])
-				e.do(e.agPort, "POST", "/agent/response", agentHdr(bk.BackendUser, bk.ID, rid), []byte(raw), 10*time.Second)
+				e.do(e.agPort, "POST", "/agent/response", agentHdr(bk.BackendUser, storedAt, rid), []byte(raw), 10*time.Second)
 			}
 			var cr clientResult
 			answered := false
